@@ -341,10 +341,10 @@ def units_of(env):
     return [list(range(s, min(s + b, n))) for s in range(0, n, b)]
 
 
-def expected_kinds(units, pred, score, lrn):
+def expected_kinds(units, pred, score, lrn, probe=0):
     out = []
-    for u in units:
-        out += ['predict'] * len(u) * pred + ['score'] * len(u) * score + ['learn'] * len(u) * lrn
+    for n_, u in enumerate(units):
+        out += ['predict'] * len(u) * pred + ['predict'] * (probe if n_ == 0 else 0) * pred + ['score'] * len(u) * score + ['learn'] * len(u) * lrn
     return out
 
 
@@ -425,11 +425,16 @@ def run_and_compare(env, learn, ev, record, spec):
     units = units_of(env)
     kinds = [t[0] for t in trace]
     pattern = None
+    # SafeLearner's documented test for a batch answer whose major order cannot be seen (a square answer: batch size == items per row):
+    # one extra predict with a batch holding only the first row, right after the first batch's predict; its result is discarded
+    square = spec['batch'] == 'rows' and env['batch'] and len(units[0]) == {'a': 1, 'ap': 2, 'ak': 2, 'apk': 3}[spec['fmt']]
+    probe = 0
     for pred in (0, 1):
         for score in (0, 1):
             for lrn in (0, 1):
-                if kinds == expected_kinds(units, pred, score, lrn) and (kinds or (pred, score, lrn) == (0, 0, 0)):
-                    pattern = (pred, score, lrn)
+                for pb in ((0, 1) if square and pred else (0,)):
+                    if kinds == expected_kinds(units, pred, score, lrn, pb) and (kinds or (pred, score, lrn) == (0, 0, 0)):
+                        pattern = (pred, score, lrn); probe = pb
     if pattern is None:
         res.status = 'bad-pattern'
         res.signature = 'bad-pattern'
@@ -465,6 +470,9 @@ def run_and_compare(env, learn, ev, record, spec):
                 p = plain[i]
                 exp_trace.append(('predict', nv(p.get('context')), na(p.get('actions'))))
                 P[i] = choose(spec, k, p.get('actions')); k += 1
+            if probe and u is units[0]:
+                p = plain[u[0]]
+                exp_trace.append(('predict', nv(p.get('context')), na(p.get('actions')))); k += 1
         if score:
             for i in u:
                 p = plain[i]
@@ -510,7 +518,7 @@ def run_and_compare(env, learn, ev, record, spec):
             exp_rows.append((must, may, absent, times))
 
     res.status = 'evaluated'
-    res.signature = f'ok:{pred}{score}{lrn}:{len(rows)}:' + (','.join(sorted(rows[0])) if rows else '-')
+    res.signature = f'ok:{pred}{score}{lrn}{probe}:{len(rows)}:' + (','.join(sorted(rows[0])) if rows else '-')
 
     # ---- compare the trace
     for n_, (got, want) in enumerate(zip(trace, exp_trace)):
